@@ -17,6 +17,31 @@ CLAIMED = {
             "decimal round trip are kernel-checked; the implementation's encoder is compared byte-for-byte with an independent RFC encoder and with the model.", "5/C11",
             "Lean 4 proof over executable model + differential correspondence + independent RFC encoder"),
 }
+CLAIMED.update({
+    "C01": ("c01_data_is_slice: for every file, block size >= 1, window size <= 65535, repeat count and every receive history (arbitrary ACK numbers, ERRORs, stray packets, time-outs) "
+            "each emitted datagram is DATA(k mod 65536, bytes [(k-1)b,kb)) with 1<=k<=N; c01_reassembly_small: any loss/duplication/reordering of the emitted datagrams gives an in-order client "
+            "a prefix of whole blocks and, on completion, the identical file (N<=65535; beyond that see C15/closed loop). The real Worker::send runs the same scripts over a scripted socket and is diffed against the model; "
+            "the statement is also evaluated directly on the implementation's trace.", "5/C01",
+            "Lean 4 inductive invariant over sender model + scripted-socket differential correspondence + trace oracle"),
+    "C02": ("c02_ack_implies_stored, c02_accept_in_sequence, c02_final_file, c02_conformant_sender over all reachable receiver states and all events (arbitrary block numbers/payloads, duplicates, stray packets, failures); "
+            "the real Worker::receive runs the scripts on a real file whose content is read from disk at every ACK.", "5/C02",
+            "Lean 4 inductive invariant over receiver model + scripted-socket differential correspondence + trace oracle"),
+    "C07": ("c07_stop_on_final_ack, c07_stop_on_error, c07_handshake, c07_never_beyond_final, c07_bounded_silence (MAX_RETRIES from the source), c07_quiet_after_end and the receiver twins, for all states/events; "
+            "tied to the real workers by scripted runs with silence/ERROR at every kind of point.", "5/C07",
+            "Lean 4 proof over sender/receiver models + scripted-socket differential correspondence + trace oracle"),
+    "C08": ("c08_outstanding_le_w, c08_cumulative, c08_burst_causes, c08_stale_ack_is_noop (+ c08_duplicate_ack_is_stale for every windowsize <= 65535), c08_receiver_acks_by_w; "
+            "scripted runs with the virtual clock just below/at the timeout and windowsize 65534/65535.", "5/C08",
+            "Lean 4 proof over sender/receiver models + virtual-clock scripted correspondence + trace oracle"),
+    "C15": ("C01/C07/C08 theorems are unbounded in the number of blocks; c15_ack_unique_in_window and c15_slide_exact state that an ACK is attributed to exactly one outstanding block across the wrap; "
+            "worker-level transfers of 65534..65538 blocks with faults in the wrap window are run through the real code and diffed.", "5/C15",
+            "Lean 4 proof (unbounded block count) + long scripted transfers across the wrap"),
+    "C16": ("c16_stutter: a worker with repeat count r reaches the same states as with 1 and emits the r-fold stutter of its output (handshake ERROR once); receiver twin; bound from config.rs; "
+            "scripted runs with r in {1..4,255} count identical consecutive datagrams.", "5/C16",
+            "Lean 4 simulation proof (stutter) + scripted correspondence"),
+    "C18": ("c18_read_sequences (every fill/remove sequence keeps the queue an in-order gap-free run of file pieces bounded by size), c18_fill_in_order, c18_no_piece_after_short, c18_remove, c18_add, c18_empty; "
+            "the real Window runs exhaustive short and random operation sequences on real files and is compared with the model and with an abstract-queue statement of the contract.", "5/C18",
+            "Lean 4 invariant/refinement proof + exhaustive short op sequences on the real Window"),
+})
 PENDING = {}
 
 def main():
